@@ -72,6 +72,8 @@ type c09Case struct {
 	ReqSize   int      `json:"req_size"`
 	Filter    string   `json:"filter"` // prepost | cf
 	GapMs     int      `json:"gap_ms"`
+	OneWay    bool     `json:"one_way"`  // one-way calls (no reply expected; monitors only)
+	Procs     int      `json:"procs"`    // > 0: GOMAXPROCS of the scenario process
 	ObjMax    int      `json:"obj_max"`  // > 0: ObjQueueMax (calls allowed inside doInvoke)
 	EarlyMs   int      `json:"early_ms"` // noread-early: when the peer writes its unsolicited replies
 	Prime     bool     `json:"prime"`    // one call (answered at once) establishes the connection before the callers start
@@ -121,6 +123,9 @@ func c09Worker() {
 
 func c09RunScenario(c *c09Case) *c09Obs {
 	obs := &c09Obs{}
+	if c.Procs > 0 {
+		runtime.GOMAXPROCS(c.Procs)
+	}
 	log := &c09Log{t0: time.Now()}
 	peer, err := newC09Peer(log, c.Conn, c.Acts)
 	if peer != nil {
@@ -249,7 +254,11 @@ func c09RunScenario(c *c09Case) *c09Obs {
 		var resp requestf.ResponsePacket
 		log.add(c09Event{Kind: "start", Call: call})
 		t0 := time.Now()
-		err := sp.TarsInvoke(ctx, 0, "echo", buf, nil, nil, &resp)
+		var ctype byte
+		if c.OneWay {
+			ctype = byte(basef.TARSONEWAY)
+		}
+		err := sp.TarsInvoke(ctx, ctype, "echo", buf, nil, nil, &resp)
 		dur := time.Since(t0)
 		cancel()
 		out, es := "reply", ""
@@ -264,6 +273,8 @@ func c09RunScenario(c *c09Case) *c09Obs {
 			} else {
 				out = "error"
 			}
+		} else if c.OneWay {
+			out = "oneway"
 		} else if len(resp.SBuffer) >= 4 {
 			pay = uint32(uint8(resp.SBuffer[0]))<<24 | uint32(uint8(resp.SBuffer[1]))<<16 | uint32(uint8(resp.SBuffer[2]))<<8 | uint32(uint8(resp.SBuffer[3]))
 			if (pay != tag && !(c.Conn == "noread-early" && pay == c09EarlyPay)) || resp.IRequestId != infos[call].id {
@@ -578,7 +589,7 @@ func c09U(ms int) int { return ms / 10 }
 
 func c09Coq(c *c09Case) string {
 	o := c.Obs
-	if o == nil || o.Fatal != "" {
+	if o == nil || o.Fatal != "" || c.OneWay {
 		return ""
 	}
 	conn := map[string]string{"accept": "CAccept", "refuse": "CRefuse", "stall": "CStall", "accept-close": "CAcceptClose", "noread": "CNoRead", "noread-early": fmt.Sprintf("(CNoReadEarly %d)", c09U(c.EarlyMs))}[c.Conn]
@@ -827,6 +838,19 @@ func c09Gen(tier string, rng *rand.Rand) []c09Case {
 		c.Warm = false
 		c.Predict = false
 		cs = append(cs, c)
+		// one-way calls return as soon as the request is queued (monitors only)
+		c = base("one-way", "accept", []c09Act{{Do: "none"}})
+		c.OneWay = true
+		c.Predict = false
+		c.Callers = pick(1, 4, 16)
+		c.Calls = 3
+		cs = append(cs, c)
+		c = base("one-way-refused", "refuse", []c09Act{{Do: "none"}})
+		c.OneWay = true
+		c.Predict = false
+		c.Callers = pick(1, 4)
+		c.Calls = 2
+		cs = append(cs, c)
 		// connection establishment: refused, stalled
 		c = base("refused-concurrent", "refuse", []c09Act{{Do: "none"}})
 		c.Callers = pick(2, 4, 16)
@@ -861,6 +885,9 @@ func c09Gen(tier string, rng *rand.Rand) []c09Case {
 		c.QueueLen = 100
 		c.Callers = pick(2, 6)
 		cs = append(cs, c)
+	}
+	for i := range cs {
+		cs[i].Procs = pick(0, 0, 0, 1, 2, 4)
 	}
 	return cs
 }
